@@ -617,7 +617,11 @@ namespace Clipper2Lib {
         {return a + path.size(); });
     if (total_vertex_count == 0) return;
 
+    // reserve the owner's slot first so that the array is still owned (and freed)
+    // if one of the allocations below throws
+    vertexLists.emplace_back(nullptr);
     Vertex* vertices = new Vertex[total_vertex_count], * v = vertices;
+    vertexLists.back() = vertices;
     for (const Path64& path : paths)
     {
       //for each path create a circular double linked list of vertices
@@ -708,8 +712,6 @@ namespace Clipper2Lib {
         else prev_v->flags = prev_v->flags | VertexFlags::LocalMax;
       }
     } // end processing current path
-
-    vertexLists.emplace_back(vertices);
   }
 
   //------------------------------------------------------------------------------
